@@ -18,7 +18,8 @@ RealDouble::RealDouble(double i)
 hash_t RealDouble::__hash__() const
 {
     hash_t seed = SYMENGINE_REAL_DOUBLE;
-    hash_combine<double>(seed, i);
+    // 0.0 and -0.0 compare equal, so they must hash equally
+    hash_combine<double>(seed, i == 0.0 ? 0.0 : i);
     return seed;
 }
 
